@@ -30,7 +30,7 @@ def sweep(ctx):
     base = os.path.join(common.VERIF, "corpus", "c10")
     targets = [(base, ["std"], FLAGS if ctx.tier == "thorough" else FLAGS[:1]),
                (base, ["go/types", "net/http", "encoding/json", "text/template", "regexp"], FLAGS if ctx.tier == "thorough" else FLAGS[1:4]),
-               (common.REPO, ["./..."], FLAGS[:4] if ctx.tier == "thorough" else FLAGS[:1])]
+               (common.REPO, ["./..."] if ctx.tier == "thorough" else ["./inference/...", "./diagnostic/...", "./annotation/...", "./config/..."], FLAGS[:4] if ctx.tier == "thorough" else FLAGS[:1])]
     for sub in ("c10", "c15", "det/m3", "det/m9", "det/m5", "c03/m11"):
         targets.append((os.path.join(common.VERIF, "corpus", sub), ["./..."], FLAGS[:4] if ctx.tier == "thorough" else FLAGS[:2]))
     for d, pats, flagsets in targets:
